@@ -77,10 +77,80 @@ var c14Consts = []constSpec{
 	{name: "jwt_max_clock_skew_minutes", dir: "jwt", cnst: "jwtMaxClockSkewMinutes"},
 	{name: "kwp_min_wrap", dir: "kwp/subtle", cnst: "MinWrapSize"},
 	{name: "kwp_max_wrap", dir: "kwp/subtle", cnst: "MaxWrapSize"},
+	{name: "aesgcm_iv_size", dir: "internal/aead", cnst: "AESGCMIVSize"},
+	{name: "aesgcm_tag_size", dir: "internal/aead", cnst: "AESGCMTagSize"},
+	{name: "aesgcm_max_plaintext", dir: "internal/aead", cnst: "aesGCMMaxPlaintextSize"},
+	{name: "aesgcmsiv_nonce_size", dir: "internal/aead", cnst: "AESGCMSIVNonceSize"},
+	{name: "chacha_max_plaintext", dir: "internal/aead", cnst: "maxChaCha20Poly1305PlaintextSize"},
+	{name: "chacha_max_ciphertext", dir: "internal/aead", cnst: "maxChaCha20Poly1305CiphertextSize"},
+	{name: "aesctr_min_iv_size", dir: "internal/aead", cnst: "aesCTRMinIVSize"},
+	{name: "stream_ctrhmac_nonce_size", dir: "streamingaead/subtle", cnst: "AESCTRHMACNonceSizeInBytes"},
+	{name: "stream_ctrhmac_nonce_prefix_size", dir: "streamingaead/subtle", cnst: "AESCTRHMACNoncePrefixSizeInBytes"},
+	{name: "stream_gcmhkdf_nonce_size", dir: "streamingaead/subtle", cnst: "AESGCMHKDFNonceSizeInBytes"},
+	{name: "stream_gcmhkdf_nonce_prefix_size", dir: "streamingaead/subtle", cnst: "AESGCMHKDFNoncePrefixSizeInBytes"},
+	{name: "stream_gcmhkdf_tag_size", dir: "streamingaead/subtle", cnst: "AESGCMHKDFTagSizeInBytes"},
+	{name: "cmac_mul", dir: "internal/mac/aescmac", cnst: "mul"},
 	{name: "nonraw_prefix_size", dir: "core/cryptofmt", cnst: "NonRawPrefixSize"},
 	{name: "tink_start_byte", dir: "core/cryptofmt", cnst: "TinkStartByte"},
 	{name: "legacy_start_byte", dir: "core/cryptofmt", cnst: "LegacyStartByte"},
 }
+
+// mapStructValues reads a package-level `name = map[K]struct{...}{ KEY: {f: v, ...}, ... }`
+// whose keys and field values are integer constants; entries in source order.
+func mapStructValues(p *pkgInfo, name string) (entries [][]string, ok bool) {
+	for _, file := range p.files {
+		for _, d := range file.Decls {
+			gd, isGen := d.(*ast.GenDecl)
+			if !isGen || gd.Tok != token.VAR {
+				continue
+			}
+			for _, sp := range gd.Specs {
+				vs := sp.(*ast.ValueSpec)
+				for i, n := range vs.Names {
+					if n.Name != name || i >= len(vs.Values) {
+						continue
+					}
+					cl, isLit := vs.Values[i].(*ast.CompositeLit)
+					if !isLit {
+						return nil, false
+					}
+					for _, e := range cl.Elts {
+						kv, isKV := e.(*ast.KeyValueExpr)
+						if !isKV {
+							return nil, false
+						}
+						ktv, has := p.info.Types[kv.Key]
+						if !has || ktv.Value == nil || ktv.Value.Kind() != constant.Int {
+							return nil, false
+						}
+						row := []string{ktv.Value.ExactString()}
+						inner, isInner := kv.Value.(*ast.CompositeLit)
+						if !isInner {
+							return nil, false
+						}
+						for _, fe := range inner.Elts {
+							fkv, isF := fe.(*ast.KeyValueExpr)
+							if !isF {
+								return nil, false
+							}
+							ftv, hasF := p.info.Types[fkv.Value]
+							if !hasF || ftv.Value == nil || ftv.Value.Kind() != constant.Int {
+								return nil, false
+							}
+							row = append(row, types.ExprString(fkv.Key), ftv.Value.ExactString())
+						}
+						entries = append(entries, row)
+					}
+					return entries, true
+				}
+			}
+		}
+	}
+	return nil, false
+}
+
+var hpkeIDConsts = []string{"P256HKDFSHA256", "P384HKDFSHA384", "P521HKDFSHA512", "X25519HKDFSHA256", "MLKEM768", "MLKEM1024", "XWing",
+	"HKDFSHA256", "HKDFSHA384", "HKDFSHA512", "AES128GCM", "AES256GCM", "ChaCha20Poly1305"}
 
 func taskConsts(repo string, write func(name, body string) error) error {
 	var b strings.Builder
@@ -113,6 +183,31 @@ func taskConsts(repo string, write func(name, body string) error) error {
 			src = c.lhs + " " + c.op.String() + " _"
 		}
 		fmt.Fprintf(&b, "Definition gen_%s : N := %s. (* %s: %s *)\n", c.name, strings.Trim(v, "()"), c.dir, src)
+	}
+	// HPKE identifiers and the kemLengths table (C06)
+	if hp, err := loadPkg(filepath.Join(repo, "hybrid/internal/hpke")); err != nil || hp == nil {
+		untr = append(untr, "hpke: package hybrid/internal/hpke not loaded")
+	} else {
+		for _, c := range hpkeIDConsts {
+			if v, ok := constValue(hp, c); ok {
+				fmt.Fprintf(&b, "Definition gen_hpke_%s : N := %s. (* hybrid/internal/hpke: %s *)\n", c, strings.Trim(v, "()"), c)
+			} else {
+				untr = append(untr, "hpke constant "+c+" not found")
+			}
+		}
+		if rows, ok := mapStructValues(hp, "kemLengths"); ok {
+			var items []string
+			for _, r := range rows {
+				var fs []string
+				for i := 1; i+1 < len(r); i += 2 {
+					fs = append(fs, fmt.Sprintf("(\"%s\"%%string, %s)", r[i], r[i+1]))
+				}
+				items = append(items, fmt.Sprintf("(%s, [%s])", r[0], strings.Join(fs, "; ")))
+			}
+			fmt.Fprintf(&b, "Definition gen_hpke_kemLengths : list (N * list (string * N)) :=\n  [%s].\n", strings.Join(items, ";\n   "))
+		} else {
+			untr = append(untr, "hpke table kemLengths: not a literal map of constant structs")
+		}
 	}
 	b.WriteString("\n")
 	b.WriteString(untrDef("consts_untranslatable", untr))
